@@ -244,6 +244,17 @@ func cmdCheck(args []string) int {
 			fmt.Println("ENGINE-ERROR:", err)
 			return 2
 		}
+		if u.Only != "" {
+			for _, r := range pool.Results {
+				var keep []interp.CheckResult
+				for _, c := range r.Checks {
+					if strings.HasPrefix(c.ID, u.Only) {
+						keep = append(keep, c)
+					}
+				}
+				r.Checks = keep
+			}
+		}
 		ue := ev.addUnit(u, params, pool, st, time.Since(tu))
 		cases := map[caseKey]*caseRec{}
 		var order []caseKey
